@@ -107,10 +107,11 @@ def run_shard(shard, acc):
                 acc.sample({"name": name, "text": print_program(prog).text})
         return
     rnd = random.Random(shard["seed"])
-    for i in range(shard["n"]):
-        g = Gen(random.Random(rnd.randrange(1 << 40)), Cfg(depth=shard["depth"]))
-        prog = g.program()
-        check_program(prog, acc, rnd)
+    from vf.common import exps_workload
+    for i, (name, prog) in enumerate(exps_workload(shard)):
+        check_program(prog, acc, rnd, name)
+        if prog["macros"]:
+            acc.count("programs_with_macros")
         if i < 1:
             acc.sample({"name": "random", "text": print_program(prog).text[:1500]})
 
